@@ -435,7 +435,7 @@ func storeRandReq(r *Rng, m *storeMux) storeReq {
 			case 'l':
 				segs = append(segs, e.s)
 			case 'p':
-				segs = append(segs, Pick(r, []string{"1", "22", "a", "b", "", ":x", "*", "v" + fmt.Sprint(r.Intn(50))}))
+				segs = append(segs, Pick(r, []string{"1", "22", "a", "b", "", ":x", "*", "v" + fmt.Sprint(r.Intn(50)), ".", "..", "%41", "a%2Fb"}))
 			case 's':
 				for k := r.Intn(3); k >= 0; k-- {
 					segs = append(segs, Pick(r, []string{"r", "s", "", "t" + fmt.Sprint(r.Intn(9))}))
